@@ -206,6 +206,28 @@ func propC11(e *Env) {
 			return "", err
 		})
 	}
+	// several clients of ONE metric through the metrics API (what a metric's own lock is for)
+	apiClients := 0
+	apiDone := 0
+	var apiMetric *metrics.Metric
+	apiTuples := []string{"p", "q", "r", "s"}
+	if e.Bool("gen") {
+		apiMetric = metrics.NewMetric("api_shared", "harness", metrics.Counter, metrics.Int, "k")
+		store.Add(apiMetric)
+		apiClients = 2 + e.Choose("gen", 2)
+		for c := 0; c < apiClients; c++ {
+			e.S.Go("api-client", func() {
+				defer func() { apiDone++ }()
+				for _, t := range apiTuples {
+					d, err := apiMetric.GetDatum(t)
+					if err == nil {
+						datum.IncIntBy(d, 1, time.Time{})
+					}
+					simrt.HYield()
+				}
+			})
+		}
+	}
 	// reload task
 	reloads := 0
 	reloadsDone := true
@@ -225,7 +247,7 @@ func propC11(e *Env) {
 	// drive: interleave scheduler steps with clock advances (GC ticks)
 	for i := 0; i < 4000000 && !e.S.OverBudget(); i++ {
 		if !e.S.Step() {
-			if fedDone && reloadsDone && exportsDone == nExporters {
+			if fedDone && reloadsDone && exportsDone == nExporters && apiDone == apiClients {
 				break
 			}
 			e.S.Advance(5 * time.Minute)
@@ -274,6 +296,30 @@ func propC11(e *Env) {
 	if !r.quiesce() || !collected {
 		e.Fail("deadlock", "final collection stuck; live: %s", liveString(e))
 		return
+	}
+	if apiMetric != nil {
+		perTuple := map[string]int64{}
+		sets := map[string]int{}
+		doneAPI := false
+		e.S.Go("collect-api", func() {
+			apiMetric.RLock()
+			for _, lv := range apiMetric.LabelValues {
+				perTuple[lv.Labels[0]] += datum.GetInt(lv.Value)
+				sets[lv.Labels[0]]++
+			}
+			apiMetric.RUnlock()
+			doneAPI = true
+		})
+		if !r.quiesce() || !doneAPI {
+			e.Fail("deadlock", "collecting the API metric got stuck; live: %s", liveString(e))
+			return
+		}
+		for _, t := range apiTuples {
+			if sets[t] != 1 || perTuple[t] != int64(apiClients) {
+				e.Fail("lost-increment", "%d clients each incremented api_shared[%s] once through GetDatum: the metric holds %d label sets for it with a total of %d", apiClients, t, sets[t], perTuple[t])
+				return
+			}
+		}
 	}
 	if final["total[]"] != matched {
 		e.Fail("lost-increment", "%d matching lines, reloads=%d gc=%v exporters=%d: counter total is %d", matched, reloads, withGC, nExporters, final["total[]"])
